@@ -16,7 +16,7 @@ RULE = ("stateless exploration of call histories on 9 networks (N1 filter+stiffn
         "CG(SOR) with initial-guess memory, N4 sparse EigenSolve, N5 OverhangFilter+KS, N6 SystemOfEquations, N7 "
         "StaticCondensation, N8 complex dynamic stiffness + LinSolve + ComplexNorm, N9 bare dense LinSolve whose matrix "
         "table holds different matrix classes, N10 the same with definite -> indefinite -> definite symmetric matrices); every protocol-respecting sequence over {I0,I1,I2,R,S0,S1,B,Z} up to the "
-        "depth bound, each followed by clean cycles for all (k,j) (the first fresh after the sequence, rotating); on every "
+        "depth bound, each followed by clean cycles for all (k,j), j in {output 0, output 1, both outputs} (the first fresh after the sequence, rotating); on every "
         "intermediate state: after Z no sensitivity is left, B without a seed changes nothing, R,R equals R. "
         "Non-trivial = the sequence contains at least one R; distinct by (network, sequence, first clean cycle)")
 ASSUMPTIONS = ["documented memories (Scaling first value, damped AggScaling, writer counters) are not part of the networks",
@@ -157,6 +157,15 @@ def set_input(w, k):
 
 
 def seed(w, j):
+    """j = 0, 1: seed that output; j = 2: seed both outputs (contributions meet on shared upstream signals)"""
+    if j == 2:
+        if w['outs'][0] is w['outs'][1]:
+            v = w['seeds'][0] + w['seeds'][1]
+            w['outs'][0].sensitivity = v.copy() if isinstance(v, np.ndarray) else v
+        else:
+            seed(w, 0)
+            seed(w, 1)
+        return
     v = w['seeds'][j]
     w['outs'][j].sensitivity = v.copy() if isinstance(v, np.ndarray) else v
 
@@ -306,7 +315,7 @@ def run_history(name, t, seq, cycles):
     return nops, None
 
 
-ALL_CYCLES = [(k, j) for k in range(3) for j in range(2)]
+ALL_CYCLES = [(k, j) for k in range(3) for j in range(3)]
 
 
 def execute(case):
